@@ -41,8 +41,10 @@ func computeFeatures(p *Prog, fn *ssa.Function, isRole func(string) bool) []stri
 						if n != "dynamic" {
 							set["ext:"+n] = true
 						}
-					} else if cal.Parent() == nil && cal.Pkg == p.Ergo && cal.Signature.Recv() == nil {
-						if isRole(cal.Name()) {
+					} else if cal.Parent() == nil && cal.Pkg == p.Ergo {
+						// (methods are looked into as well - a store object whose methods forward to the storage
+						// functions - but only plain functions are roles)
+						if cal.Signature.Recv() == nil && isRole(cal.Name()) {
 							set["call:"+cal.Name()] = true
 						}
 						// callee bodies count as the caller's (to a bounded depth): extracting or inlining a helper keeps the set
